@@ -244,3 +244,97 @@ func Response(key crypto.Signer, cert *x509.Certificate, o TSAOpts) []byte {
 	}
 	return must(asn1.Marshal(resp))
 }
+
+// ---- minimal reader (for independent inspection of SignedData produced by relic)
+
+type rawSignedData struct {
+	Version      int
+	DigestAlgs   asn1.RawValue
+	Content      asn1.RawValue
+	Certificates asn1.RawValue   `asn1:"optional,tag:0"`
+	CRLs         asn1.RawValue   `asn1:"optional,tag:1"`
+	SignerInfos  []rawSignerInfo `asn1:"set"`
+}
+
+type rawSignerInfo struct {
+	Version         int
+	Sid             issuerAndSerial
+	DigestAlgorithm pkix.AlgorithmIdentifier
+	SignedAttrs     asn1.RawValue `asn1:"optional,tag:0"`
+	SigAlgorithm    pkix.AlgorithmIdentifier
+	Signature       []byte
+	UnsignedAttrs   asn1.RawValue `asn1:"optional,tag:1"`
+}
+
+type rawContentInfo struct {
+	Type    asn1.ObjectIdentifier
+	Content asn1.RawValue `asn1:"explicit,tag:0"`
+}
+
+func parseSD(der []byte) (*rawSignedData, error) {
+	var ci rawContentInfo
+	if _, err := asn1.Unmarshal(der, &ci); err != nil {
+		return nil, err
+	}
+	sd := new(rawSignedData)
+	if _, err := asn1.Unmarshal(ci.Content.Bytes, sd); err != nil {
+		return nil, err
+	}
+	return sd, nil
+}
+
+// ParseCertificates returns the embedded certificates in their encoded order.
+func ParseCertificates(der []byte) ([]*x509.Certificate, error) {
+	sd, err := parseSD(der)
+	if err != nil {
+		return nil, err
+	}
+	return x509.ParseCertificates(sd.Certificates.Bytes)
+}
+
+// VerifySignerInfo checks the first SignerInfo's signature value over its signed attributes
+// (as a DER SET OF) under cert's public key.
+func VerifySignerInfo(der []byte, cert *x509.Certificate) error {
+	sd, err := parseSD(der)
+	if err != nil {
+		return err
+	}
+	if len(sd.SignerInfos) == 0 {
+		return errorString("no signer info")
+	}
+	si := sd.SignerInfos[0]
+	var h crypto.Hash
+	switch {
+	case si.DigestAlgorithm.Algorithm.Equal(OidSHA256):
+		h = crypto.SHA256
+	case si.DigestAlgorithm.Algorithm.Equal(asn1.ObjectIdentifier{2, 16, 840, 1, 101, 3, 4, 2, 2}):
+		h = crypto.SHA384
+	case si.DigestAlgorithm.Algorithm.Equal(asn1.ObjectIdentifier{2, 16, 840, 1, 101, 3, 4, 2, 3}):
+		h = crypto.SHA512
+	case si.DigestAlgorithm.Algorithm.Equal(asn1.ObjectIdentifier{1, 3, 14, 3, 2, 26}):
+		h = crypto.SHA1
+	default:
+		return errorString("unknown digest " + si.DigestAlgorithm.Algorithm.String())
+	}
+	if len(si.SignedAttrs.Bytes) == 0 {
+		return errorString("no signed attributes")
+	}
+	setOf := must(asn1.Marshal(asn1.RawValue{Class: asn1.ClassUniversal, Tag: asn1.TagSet, IsCompound: true, Bytes: si.SignedAttrs.Bytes}))
+	w := h.New()
+	w.Write(setOf)
+	d := w.Sum(nil)
+	switch pub := cert.PublicKey.(type) {
+	case *rsa.PublicKey:
+		return rsa.VerifyPKCS1v15(pub, h, d, si.Signature)
+	case *ecdsa.PublicKey:
+		if !ecdsa.VerifyASN1(pub, d, si.Signature) {
+			return errorString("ECDSA signature does not verify")
+		}
+		return nil
+	}
+	return errorString("unsupported key")
+}
+
+type errorString string
+
+func (e errorString) Error() string { return string(e) }
